@@ -92,6 +92,7 @@ def make_variants(base, out, rng, tier):
     begins = [n for n, rec in enumerate(trace) if rec['ev'] == 'job_begin']
     ends = [n for n, rec in enumerate(trace) if rec['ev'] == 'job_end']
     vs = []
+    core_cmdfail = set()       # a job that ends with a pruning push, started on a stale mirror: always run
     for j, (si, b, e) in enumerate(zip(jidx, begins, ends)):
         ops = [rec for rec in trace[b:e + 1] if rec['ev'] == 'op']
         nops = len(ops)
@@ -110,25 +111,32 @@ def make_variants(base, out, rng, tier):
             prevrefs = cur
         for n in sorted(pushrefs):
             vs.append(('reject', si, dict(reject=[n]), j))
+        # a read-side command of the job fails (mirror refresh, clone, remote update), a foreign branch having
+        # been pushed since the previous job
+        prunes = any('--prune' in (rec['op'].get('cmd') or '') for rec in ops)
+        for pat in (r'git fetch --prune', r'git remote update', r'git clone --mirror'):
+            vs.append(('cmdfail', si, dict(fail_cmd=dict(match=pat, nth=0, third_before=True)), j))
+            if prunes and pat == r'git fetch --prune':
+                core_cmdfail.add(len(vs) - 1)
         pushes = [rec['op']['idx'] for rec in ops if rec['op'].get('kind') == 'push']
         for k in pushes:
             for act in ('create_branch', 'push_src', 'force_src', 'rewind_src'):
                 vs.append(('third', si, dict(third=dict(at=k, act=act, p=1 + (k + j) % 2)), j))
     res = []
-    for kind, si, fault, j in vs:
+    for vn, (kind, si, fault, j) in enumerate(vs):
         steps = [dict(s) for s in base['steps'][:si]]
         fs = dict(base['steps'][si])
         fs.update(fault)
         steps.append(fs)
-        if kind in ('crash', 'reject'):
+        if kind in ('crash', 'reject', 'cmdfail'):
             steps.append({"a": "recover", "step": dict(base['steps'][si]), "job": j,
                           "expect": out['dtrees'][j]})
         steps += [dict(s) for s in base['steps'][si + 1:]]
-        steps.append({"a": "final_check", "expect": out['dtrees'][-1] if kind != 'third' else None})
+        steps.append({"a": "final_check", "expect": out['dtrees'][-1] if kind not in ('third',) else None})
         res.append(dict(id='%s|%s|step%d|%s' % (base['id'], kind, si, json.dumps(fault, sort_keys=True)),
                         world=base['world'], steps=steps, fault=dict(kind=kind, **fault),
                         # interrupted administrative jobs are few: always run (quick tier too)
-                        core=(base['steps'][si]['a'] == 'api' and kind in ('crash', 'reject'))))
+                        core=(base['steps'][si]['a'] == 'api' and kind in ('crash', 'reject')) or vn in core_cmdfail))
     return res
 
 
